@@ -14,6 +14,7 @@ import (
 
 func init() {
 	register(&PropertyCheck{ID: "C05", Level: "other", Run: checkC05, Canaries: []Canary{
+		{Name: "adv5-B1-open-tail-converted-to-a-string-per-item", Rule: "R5.2", Where: "(*UserProp).UnmarshalBinary", Edits: []Edit{{"wiretypes.go", "\tv[0] = string(key)\n\n\ti := len(v[0]) + 2\n\tvar val wstring\n\tif err := val.UnmarshalBinary(data[i:]); err != nil {\n\t\treturn unmarshalErr(v, \"value\", err.(*Malformed))\n\t}\n\tv[1] = string(val)", "\ti := len(key) + 2\n\tvar val wstring\n\tif err := val.UnmarshalBinary(data[i:]); err != nil {\n\t\treturn unmarshalErr(v, \"value\", err.(*Malformed))\n\t}\n\t// key and value share one string, a single conversion instead of\n\t// one per element\n\ts := string(data[2:])\n\tv[0] = s[:len(key)]\n\tv[1] = s[i : i+len(val)]"}}},
 		{Name: "rf7-filter-loop-keeps-going-after-an-error", Rule: "R5.1", Where: "(*Subscribe).UnmarshalBinary#loop1", Edits: []Edit{{"buffer.go", "\tb.i += n\n}\n", "\tb.i += n\n}\n\n// getRest reads everything up to the end of data and returns it as\n// a copy. After a failure the result still has the size of the\n// unread data though nothing is read into it.\nfunc (b *buffer) getRest() []byte {\n\trest := make([]byte, len(b.data)-b.i)\n\tif b.err == nil {\n\t\tb.i += copy(rest, b.data[b.i:])\n\t}\n\treturn rest\n}\n"}, {"suback.go", "\tp.reasonCodes = make([]uint8, len(data)-b.i)\n\n\tfor i, _ := range p.reasonCodes {\n\t\tvar v wuint8\n\t\tb.get(&v)\n\t\tp.reasonCodes[i] = uint8(v)\n\t}\n\treturn b.err", "\t// payload, one reason code per byte\n\tp.reasonCodes = b.getRest()\n\treturn b.Err()"}, {"subscribe.go", "\tfor {\n\t\tvar f TopicFilter\n\t\tb.get(&f.filter)\n\t\tb.get(&f.options)\n\t\tif b.err != nil {\n\t\t\tbreak\n\t\t}\n\t\tp.filters = append(p.filters, f)\n\t\tif b.i == len(data) {\n\t\t\tbreak\n\t\t}\n\t}\n\treturn b.err", "\t// payload, the first filter is read even if there is no more\n\t// data as at least one is required\n\tfor more := true; more; more = !b.atEnd() {\n\t\tvar f TopicFilter\n\t\tb.get(&f.filter)\n\t\tb.get(&f.options)\n\t\tif b.Err() == nil {\n\t\t\tp.filters = append(p.filters, f)\n\t\t}\n\t}\n\treturn b.Err()"}, {"unsuback.go", "\tp.reasonCodes = make([]uint8, len(data)-b.i)\n\n\tfor i, _ := range p.reasonCodes {\n\t\tvar v wuint8\n\t\tb.get(&v)\n\t\tp.reasonCodes[i] = uint8(v)\n\t}\n\treturn b.err", "\t// payload, one reason code per byte\n\tp.reasonCodes = b.getRest()\n\treturn b.Err()"}, {"unsubscribe.go", "\tfor {\n\t\tvar f wstring\n\t\tb.get(&f)\n\t\tif b.err != nil {\n\t\t\tbreak\n\t\t}\n\t\tp.filters = append(p.filters, f)\n\t\tif b.i == len(data) {\n\t\t\tbreak\n\t\t}\n\t}\n\treturn b.err", "\t// payload, the first filter is read even if there is no more\n\t// data as at least one is required\n\tfor more := true; more; more = !b.atEnd() {\n\t\tvar f wstring\n\t\tb.get(&f)\n\t\tif b.Err() != nil {\n\t\t\tbreak\n\t\t}\n\t\tp.filters = append(p.filters, f)\n\t}\n\treturn b.Err()"}}},
 		{Name: "rf7-filter-loop-tests-the-accessor", Silent: true, Edits: []Edit{{"buffer.go", "\tb.i += n\n}\n", "\tb.i += n\n}\n\n// getRest reads everything up to the end of data and returns it as\n// a copy. After a failure the result still has the size of the\n// unread data though nothing is read into it.\nfunc (b *buffer) getRest() []byte {\n\trest := make([]byte, len(b.data)-b.i)\n\tif b.err == nil {\n\t\tb.i += copy(rest, b.data[b.i:])\n\t}\n\treturn rest\n}\n"}, {"suback.go", "\tp.reasonCodes = make([]uint8, len(data)-b.i)\n\n\tfor i, _ := range p.reasonCodes {\n\t\tvar v wuint8\n\t\tb.get(&v)\n\t\tp.reasonCodes[i] = uint8(v)\n\t}\n\treturn b.err", "\t// payload, one reason code per byte\n\tp.reasonCodes = b.getRest()\n\treturn b.Err()"}, {"subscribe.go", "\tfor {\n\t\tvar f TopicFilter\n\t\tb.get(&f.filter)\n\t\tb.get(&f.options)\n\t\tif b.err != nil {\n\t\t\tbreak\n\t\t}\n\t\tp.filters = append(p.filters, f)\n\t\tif b.i == len(data) {\n\t\t\tbreak\n\t\t}\n\t}\n\treturn b.err", "\t// payload, the first filter is read even if there is no more\n\t// data as at least one is required\n\tfor more := true; more; more = !b.atEnd() {\n\t\tvar f TopicFilter\n\t\tb.get(&f.filter)\n\t\tb.get(&f.options)\n\t\tif b.Err() != nil {\n\t\t\tbreak\n\t\t}\n\t\tp.filters = append(p.filters, f)\n\t}\n\treturn b.Err()"}, {"unsuback.go", "\tp.reasonCodes = make([]uint8, len(data)-b.i)\n\n\tfor i, _ := range p.reasonCodes {\n\t\tvar v wuint8\n\t\tb.get(&v)\n\t\tp.reasonCodes[i] = uint8(v)\n\t}\n\treturn b.err", "\t// payload, one reason code per byte\n\tp.reasonCodes = b.getRest()\n\treturn b.Err()"}, {"unsubscribe.go", "\tfor {\n\t\tvar f wstring\n\t\tb.get(&f)\n\t\tif b.err != nil {\n\t\t\tbreak\n\t\t}\n\t\tp.filters = append(p.filters, f)\n\t\tif b.i == len(data) {\n\t\t\tbreak\n\t\t}\n\t}\n\treturn b.err", "\t// payload, the first filter is read even if there is no more\n\t// data as at least one is required\n\tfor more := true; more; more = !b.atEnd() {\n\t\tvar f wstring\n\t\tb.get(&f)\n\t\tif b.Err() != nil {\n\t\t\tbreak\n\t\t}\n\t\tp.filters = append(p.filters, f)\n\t}\n\treturn b.Err()"}}},
 		{Name: "filter-helper-reads-only-when-data-is-left", Rule: "R5.1", Where: "(*Subscribe).UnmarshalBinary", Edits: []Edit{{"subscribe.go", "\tfor {\n\t\tvar f TopicFilter\n\t\tb.get(&f.filter)\n\t\tb.get(&f.options)\n\t\tif b.err != nil {\n\t\t\tbreak\n\t\t}\n\t\tp.filters = append(p.filters, f)\n\t\tif b.i == len(data) {\n\t\t\tbreak\n\t\t}\n\t}\n\treturn b.err", "\t// the payload holds at least one topic filter\n\tfor more := true; more; more = !b.atEnd() {\n\t\tf, err := b.getTopicFilter()\n\t\tif err != nil {\n\t\t\treturn err\n\t\t}\n\t\tp.filters = append(p.filters, f)\n\t}\n\treturn nil\n}\n\n// getTopicFilter reads one filter and its subscription options.\nfunc (b *buffer) getTopicFilter() (f TopicFilter, err error) {\n\tif !b.atEnd() {\n\t\tb.get(&f.filter)\n\t\tb.get(&f.options)\n\t}\n\treturn f, b.err"}, {"unsubscribe.go", "\tfor {\n\t\tvar f wstring\n\t\tb.get(&f)\n\t\tif b.err != nil {\n\t\t\tbreak\n\t\t}\n\t\tp.filters = append(p.filters, f)\n\t\tif b.i == len(data) {\n\t\t\tbreak\n\t\t}\n\t}\n\treturn b.err", "\t// the payload holds at least one topic filter\n\tfor more := true; more; more = !b.atEnd() {\n\t\tvar f wstring\n\t\tif b.get(&f); b.err != nil {\n\t\t\treturn b.err\n\t\t}\n\t\tp.filters = append(p.filters, f)\n\t}\n\treturn nil"}}},
@@ -274,6 +275,24 @@ func checkC05(p *Prog, c *Check) {
 					if grows {
 						ia++
 						c.Bad("R5.2", fmt.Sprintf("%s#concat%d", qname(fn), ia), posOf(p, ins), "a string is extended by concatenation on every iteration of a loop on the decode path: each step copies what was built so far, so the work is quadratic in the number of items")
+					}
+				case *ssa.Convert:
+					// string(bytes) / []byte(text) allocates and copies its operand: in a per-item wire decoder the operand
+					// must not be (a tail of) the open-ended input
+					_, toStr := x.Type().Underlying().(*types.Basic)
+					_, fromStr := x.X.Type().Underlying().(*types.Basic)
+					isBytes := func(t types.Type) bool { return isByteSlice(t) }
+					if !((toStr && isStringT(x.Type().Underlying()) && isBytes(x.X.Type())) || (fromStr && isStringT(x.X.Type().Underlying()) && isBytes(x.Type()))) {
+						continue
+					}
+					if p.isWireDecoder(fn) && len(fn.Params) == 2 {
+						if pt, ok := fn.Params[0].Type().Underlying().(*types.Pointer); ok && p.wireKindOf(pt.Elem()) != "raw" {
+							l := pr.lenOf(x.X)
+							if k := l.coef["len("+pr.key(fn.Params[1])+")"]; k > 0 {
+								ia++
+								c.Unk("R5.2", fmt.Sprintf("%s#convert%d", qname(fn), ia), posOf(p, ins), "a per-item wire decoder converts (allocates and copies) "+l.String()+" bytes — proportional to the whole rest of the frame it is handed, on every item: quadratic over a frame's items")
+							}
+						}
 					}
 				case *ssa.MakeSlice:
 					nalloc++
